@@ -4,6 +4,7 @@
 //   sqs L i                       GetSegItemIndexes only (indexes outside the proved range; no UB there)
 //   sqr L lo n | cnr L lo n       the same four values for every index lo..lo+n-1, run-length encoded on one line
 //   sqx L s j | cnx L s j         GetIndex(s,j) then GetSegItemIndexes of it
+//   (F = sq | cn: 16-byte element, manager without Reallocate;  sqw | cnw: 40-byte element, manager with Reallocate)
 //   hist F L op...                grow/shrink history on momo::SegmentedArray<Elem,...,Settings<F,L>> (F = sq|cn)
 //   hist2 F L op...               two arrays: A.<op> B.<op> mAB MAB xAB cAB kAB (move / swap / copy between them)
 #include "private_access.h"
@@ -15,7 +16,7 @@ typedef SegmentedArrayItemCountFunc Fn;
 // ---------------------------------------------------------------- tracking memory manager
 struct AllocRec { size_t size; ull serial; };
 static std::map<void*, AllocRec> g_live;
-static ull g_serial = 0;
+static ull g_serial = 0; static ull g_reallocs = 0;
 struct TrackMM
 {
 	explicit TrackMM() noexcept {}
@@ -32,20 +33,60 @@ struct TrackMM
 	}
 };
 
+// the same with the optional Reallocate member: momo::Array (the segment pointer table mSegments) then grows by realloc
+struct TrackMMR : TrackMM
+{
+	explicit TrackMMR() noexcept {}
+	TrackMMR(TrackMMR&&) noexcept {}
+	TrackMMR(const TrackMMR&) noexcept {}
+	TrackMMR& operator=(const TrackMMR&) = delete;
+	void* Reallocate(void* p, size_t size, size_t newSize)
+	{
+		auto it = g_live.find(p);
+		if (it == g_live.end() || it->second.size != size) { printf("FAIL:bad-reallocate\n"); exit(3); }
+		void* q = operator new(newSize); memcpy(q, p, std::min(size, newSize));
+		g_live.erase(it); operator delete(p); g_live[q] = AllocRec{newSize, ++g_serial}; ++g_reallocs;
+		return q;
+	}
+};
+static_assert(!internal::MemManagerProxy<TrackMM>::canReallocate, "TrackMM must be the no-realloc manager");
+static_assert(internal::MemManagerProxy<TrackMMR>::canReallocate, "TrackMMR must be seen as realloc-capable by momo");
+
 // element that knows where it was constructed: a bitwise relocation is detected; every construction, assignment
 // (target) and destruction is logged with its address so that "which slots did this operation touch" is observable
-struct Elem;
-static std::vector<std::pair<char, const Elem*>> g_ev;
-struct Elem
+static std::vector<std::pair<char, const void*>> g_ev;
+template<size_t PAD> struct Padding { unsigned char bytes[PAD]; };
+template<> struct Padding<0> {};
+template<size_t PAD> struct ElemT : Padding<PAD>
 {
-	ull v; const Elem* self;
-	Elem() : v(0), self(this) { g_ev.push_back({'c', this}); }
-	explicit Elem(ull x) : v(x), self(this) { g_ev.push_back({'c', this}); }
-	Elem(const Elem& o) : v(o.v), self(this) { g_ev.push_back({'c', this}); }
-	Elem(Elem&& o) noexcept : v(o.v), self(this) { g_ev.push_back({'c', this}); }
-	Elem& operator=(const Elem& o) { v = o.v; g_ev.push_back({'a', this}); return *this; }
-	Elem& operator=(Elem&& o) noexcept { v = o.v; g_ev.push_back({'a', this}); return *this; }
-	~Elem() { self = nullptr; g_ev.push_back({'d', this}); }
+	ull v; const ElemT* self;
+	ElemT() : v(0), self(this) { g_ev.push_back({'c', this}); }
+	explicit ElemT(ull x) : v(x), self(this) { g_ev.push_back({'c', this}); }
+	ElemT(const ElemT& o) : v(o.v), self(this) { g_ev.push_back({'c', this}); }
+	ElemT(ElemT&& o) noexcept : v(o.v), self(this) { g_ev.push_back({'c', this}); }
+	ElemT& operator=(const ElemT& o) { v = o.v; g_ev.push_back({'a', this}); return *this; }
+	ElemT& operator=(ElemT&& o) noexcept { v = o.v; g_ev.push_back({'a', this}); return *this; }
+	~ElemT() { self = nullptr; g_ev.push_back({'d', this}); }
+};
+typedef ElemT<0> Elem16;    // 16 bytes (power of two)
+typedef ElemT<24> Elem40;   // 40 bytes (not a power of two)
+static_assert(sizeof(Elem16) == 16 && sizeof(Elem40) == 40, "element sizes");
+static_assert(!std::is_trivially_copyable<Elem16>::value, "Elem must not be memcpy-able");
+// the two default configurations of the library are among the tested ones
+static_assert(std::is_same<SegmentedArray<int>::Settings, SegmentedArraySettings<Fn::cnst, 5>>::value, "default = cnst, 5");
+static_assert(std::is_same<SegmentedArraySqrt<int>::Settings, SegmentedArraySettings<Fn::sqrt, 3>>::value, "SegmentedArraySqrt = sqrt, 3");
+
+// single-pass input iterator (not a forward iterator): Insert(index, begin, end) then takes the one-by-one path
+struct InputIt
+{
+	typedef std::input_iterator_tag iterator_category; typedef ull value_type; typedef ptrdiff_t difference_type;
+	typedef const ull* pointer; typedef const ull& reference;
+	const ull* p;
+	reference operator*() const { return *p; }
+	InputIt& operator++() { ++p; return *this; }
+	InputIt operator++(int) { InputIt t = *this; ++p; return t; }
+	bool operator==(const InputIt& o) const { return p == o.p; }
+	bool operator!=(const InputIt& o) const { return p != o.p; }
 };
 
 template<Fn F, size_t L> struct Idx
@@ -87,17 +128,20 @@ template<Fn F, size_t L> struct Idx
 static std::map<ull, ull> g_serial2id; static ull g_nextid = 0;   // allocation serial -> canonical segment id (first appearance)
 static const size_t NONE = ~size_t(0);
 
-template<Fn F, size_t L> struct Track
+template<Fn F, size_t L, class Elem = Elem16, class MM = TrackMM> struct Track
 {
 	typedef SegmentedArraySettings<F, L> S;
-	typedef SegmentedArray<Elem, TrackMM, SegmentedArrayItemTraits<Elem, TrackMM>, S> Arr;
+	typedef SegmentedArray<Elem, MM, SegmentedArrayItemTraits<Elem, MM>, S> Arr;
+	static_assert(Arr::Settings::itemCountFunc == F && Arr::Settings::logInitialItemCount == L, "the intended Settings are instantiated");
+	static_assert(std::is_same<typename Arr::Item, Elem>::value && std::is_same<typename Arr::MemManager, MM>::value, "item / manager");
 	Arr arr; std::vector<ull> twin;
 	std::vector<const Elem*> addr;            // address of slot i as last observed
 	std::vector<std::pair<void*, ull>> segs;  // segment base -> canonical id, as last observed
 
 	// index of the slot at address p in the segment table `tab` (old or new), or NONE
-	static size_t slot_of(const std::vector<std::pair<void*, ull>>& tab, const Elem* p)
+	static size_t slot_of(const std::vector<std::pair<void*, ull>>& tab, const void* vp)
 	{
+		const Elem* p = static_cast<const Elem*>(vp);
 		for (size_t s = 0; s < tab.size(); ++s)
 		{
 			const Elem* base = static_cast<const Elem*>(tab[s].first);
@@ -133,6 +177,24 @@ template<Fn F, size_t L> struct Track
 				size_t rem = arr.Remove([n](const Elem& e) { return e.v % n == 0; });
 				std::vector<ull> t2; for (ull v : twin) if (v % n != 0) t2.push_back(v);
 				if (rem != old - t2.size()) fail = "filter-count"; twin.swap(t2); return first; } return NONE;
+		// ---- overloads taking const Item& / count,item / other iterator kinds
+		case 'e': for (ull k = 0; k < n; ++k) { const Elem x(next); arr.AddBack(x); twin.push_back(next); ++next; } return old;
+		case 'o': if (arr.GetCount() < arr.GetCapacity()) { const Elem x(next); arr.AddBackNogrow(x); twin.push_back(next); ++next; return old; } return NONE;
+		case 'S': { const Elem x(next); arr.SetCount(size_t(n), x); twin.resize(size_t(n), next); ++next; } return std::min(old, size_t(n));
+		case 'j': if (n <= old) { const Elem x(next); arr.Insert(size_t(n), x); twin.insert(twin.begin() + n, next); ++next; return size_t(n); } return NONE;
+		case 'U': if (n <= old) { std::vector<ull> vs; for (ull k = 0; k < m; ++k) vs.push_back(next++);   // single-pass iterator: one InsertCrt per item
+				arr.Insert(size_t(n), InputIt{vs.data()}, InputIt{vs.data() + vs.size()}); twin.insert(twin.begin() + n, vs.begin(), vs.end()); return size_t(n); } return NONE;
+		case 'L': if (n <= old) { ull a0 = next, a1 = next + 1, a2 = next + 2; next += 3;
+				arr.Insert(size_t(n), {Elem(a0), Elem(a1), Elem(a2)}); twin.insert(twin.begin() + n, {a0, a1, a2}); return size_t(n); } return NONE;
+		// ---- the array is replaced by a newly constructed one (move assignment): every address is new
+		case 'G': arr = Arr(size_t(n)); twin.assign(size_t(n), 0); addrReset = true; return 0;
+		case 'H': { const Elem x(next); arr = Arr(size_t(n), x); twin.assign(size_t(n), next); ++next; addrReset = true; } return 0;
+		case 'R': { std::vector<ull> vs; for (ull k = 0; k < n; ++k) vs.push_back(next++);
+				arr = Arr(InputIt{vs.data()}, InputIt{vs.data() + vs.size()}); twin = vs; addrReset = true; } return 0;
+		case 'T': { ull a0 = next, a1 = next + 1, a2 = next + 2; next += 3; arr = Arr({Elem(a0), Elem(a1), Elem(a2)}); twin = {a0, a1, a2}; addrReset = true; } return 0;
+		case 'P': arr = Arr::CreateCap(size_t(n)); twin.clear(); addrReset = true; return 0;
+		case 'Q': { ull base = next; next += n; ull k = 0;
+				arr = Arr::CreateCrt(size_t(n), [&](Elem* p) { new (p) Elem(base + k); ++k; }); twin.clear(); for (ull q = 0; q < n; ++q) twin.push_back(base + q); addrReset = true; } return 0;
 		default: fail = "bad-op"; return NONE;
 		}
 	}
@@ -166,7 +228,9 @@ template<Fn F, size_t L> struct Track
 			}
 		}
 		if (fail.empty() && (it != arr.GetEnd() || cit != carr.GetEnd())) fail = "iter-end";
-		if (fail.empty() && cnt > 0 && &arr.GetBackItem() != &arr[cnt - 1]) fail = "back-item";
+		if (fail.empty() && cnt > 0 && (&arr.GetBackItem() != &arr[cnt - 1] || &carr.GetBackItem() != &arr[cnt - 1])) fail = "back-item";
+		if (fail.empty() && (arr.IsEmpty() != (cnt == 0) || !carr.IsEqual(arr, [](const Elem& x, const Elem& y) { return x.v == y.v; }))) fail = "isempty-isequal";
+		if (fail.empty() && cnt > 0 && !carr.Contains(arr[cnt / 2], [](const Elem& x, const Elem& y) { return x.v == y.v; })) fail = "contains";
 		// segments: prefix-stable, sized GetItemCount(s), capacity = sum of sizes
 		size_t sc = arr.mSegments.GetCount(); size_t capsum = 0;
 		std::vector<std::pair<void*, ull>> nsegs;
@@ -201,14 +265,14 @@ template<Fn F, size_t L> struct Track
 	}
 };
 
-static void reset_globals() { g_live.clear(); g_serial2id.clear(); g_nextid = 0; g_ev.clear(); }
+static void reset_globals() { g_live.clear(); g_serial2id.clear(); g_nextid = 0; g_ev.clear(); g_reallocs = 0; }
 
-template<Fn F, size_t L> static void history(std::istringstream& is)
+template<Fn F, size_t L, class E = Elem16, class MM = TrackMM> static void history(std::istringstream& is)
 {
 	reset_globals();
 	std::string out, fail;
 	{
-		Track<F, L> t; ull next = 1; std::string op; size_t opno = 0;
+		Track<F, L, E, MM> t; ull next = 1; std::string op; size_t opno = 0;
 		while (is >> op && fail.empty())
 		{
 			++opno; bool addrReset = false; g_ev.clear();
@@ -224,9 +288,9 @@ template<Fn F, size_t L> static void history(std::istringstream& is)
 
 // two arrays: A.<op> / B.<op> act on one of them; mAB: B = std::move(A); xAB: A.Swap(B); cAB: B = A (copy assignment);
 // kAB: B = Arr(A, false) (copy keeping the capacity); MAB: move construction (Arr tmp(std::move(A)); B.Swap(tmp))
-template<Fn F, size_t L> static void history2(std::istringstream& is)
+template<Fn F, size_t L, class E = Elem16, class MM = TrackMM> static void history2(std::istringstream& is)
 {
-	typedef Track<F, L> T; typedef typename T::Arr Arr;
+	typedef Track<F, L, E, MM> T; typedef typename T::Arr Arr; typedef E Elem;
 	reset_globals();
 	std::string out, fail;
 	{
@@ -302,6 +366,15 @@ template<Fn F> struct Disp<F, 0>
 {
 	template<class Fun> static void go(size_t l, Fun&& f) { if (l == 0) f(Idx<F, 0>()); else puts("?L"); }
 };
+// variant "w": 40-byte element + realloc-capable manager
+template<Fn F> static void histw_dispatch(size_t l, std::istringstream& is, bool two)
+{
+	switch (l) {
+	case 0: two ? history2<F, 0, Elem40, TrackMMR>(is) : history<F, 0, Elem40, TrackMMR>(is); break;
+	case 3: two ? history2<F, 3, Elem40, TrackMMR>(is) : history<F, 3, Elem40, TrackMMR>(is); break;
+	case 5: two ? history2<F, 5, Elem40, TrackMMR>(is) : history<F, 5, Elem40, TrackMMR>(is); break;
+	default: puts("?L"); }
+}
 template<Fn F> static void hist2_dispatch(size_t l, std::istringstream& is)
 {
 	switch (l) {
@@ -315,6 +388,7 @@ template<Fn F> static void hist_dispatch(size_t l, std::istringstream& is)
 	case 0: history<F, 0>(is); break; case 1: history<F, 1>(is); break; case 2: history<F, 2>(is); break;
 	case 3: history<F, 3>(is); break; case 4: history<F, 4>(is); break; case 5: history<F, 5>(is); break;
 	case 6: history<F, 6>(is); break; case 8: history<F, 8>(is); break;
+	case 12: history<F, 12>(is); break; case 16: history<F, 16>(is); break;
 	default: puts("?L"); }
 }
 
@@ -350,12 +424,14 @@ int main()
 		else if (cmd == "hist2")
 		{
 			std::string f; ull l; is >> f >> l;
-			if (f == "sq") hist2_dispatch<Fn::sqrt>(l, is); else hist2_dispatch<Fn::cnst>(l, is);
+			if (f == "sqw") histw_dispatch<Fn::sqrt>(l, is, true); else if (f == "cnw") histw_dispatch<Fn::cnst>(l, is, true);
+			else if (f == "sq") hist2_dispatch<Fn::sqrt>(l, is); else hist2_dispatch<Fn::cnst>(l, is);
 		}
 		else if (cmd == "hist")
 		{
 			std::string f; ull l; is >> f >> l;
-			if (f == "sq") hist_dispatch<Fn::sqrt>(l, is); else hist_dispatch<Fn::cnst>(l, is);
+			if (f == "sqw") histw_dispatch<Fn::sqrt>(l, is, false); else if (f == "cnw") histw_dispatch<Fn::cnst>(l, is, false);
+			else if (f == "sq") hist_dispatch<Fn::sqrt>(l, is); else hist_dispatch<Fn::cnst>(l, is);
 		}
 		else puts("?");
 		fflush(stdout);   // a crash (momo assertion, memory error) must not lose the lines already produced
